@@ -49,7 +49,10 @@ BOUNDS = {
         "inverter, default eta with the numba inverter]): 7 grid letters (Cartesian/triangle, unperturbed, perturbed, affine) x (16 side-wise "
         "assignments U all single-face flips of all-Dir and all-Neu). Block P (periodic map): Tensor 2x2 /per-x, /per-y, "
         "Tensor 3x2 /per-xy, C(3,3) /per-y, Tensor 3x2 /per-y *1e3 x 4 K x default eta x all assignments. Block S: "
-        "scale 1e-3 / 1e3 on perturbed letters and eta = 0.25. Purity digest on every evaluation, reuse on every 4th. Block E (2-d grids rotated into tilted planes rx45 / gen / gen2 "
+        "scale 1e-3 / 1e3 on perturbed letters and eta = 0.25. Purity digest on every evaluation, reuse on every 4th. Block F (partition_arguments in {num_subproblems 2, 3, max_memory "
+        "forcing 2 parts}, K=full, python, side-wise U single flips): C(2,2), C(2,2)~, C(3,2)~@shear, C(3,3), C(4,2), T(2,2), T(2,2)~, "
+        "C(2,2,2), C(2,2,2)@shear, Tet(1,1,1)~, one embedded and one numba case; oracle = exactness of the split matrices AND equality "
+        "(1e-12) of every stored matrix with an unsplit discretization on separate parameter objects. Block E (2-d grids rotated into tilted planes rx45 / gen / gen2 "
         "and translated; K in {Q K_plane Q^T, full 3x3, rotated 3x3}; fields linear in the 3-d coordinates; oracle with the "
         "tangential gradient): C(2,2), T(2,2), perturbed and affine variants, C(3,2)~ *1e-3. Block D (3-d, python "
         "inverter, default eta, K in {diag, full}, side-wise (64) U single flips): C(2,2,2), C(2,2,2)@shear, Tensor 2x2x2 uneven, "
@@ -84,11 +87,14 @@ def _aset_size(spec, aset):
     return n
 
 
-def _emit(out, spec, K, eta, inv, aset, per_case):
+def _emit(out, spec, K, eta, inv, aset, per_case, partition=None):
     size = _aset_size(spec, aset)
     nch = max(1, (size + per_case - 1) // per_case)
     for i in range(nch):
-        out.append({"grid": spec, "K": K, "eta": eta, "inv": inv, "aset": aset, "chunk": [i, nch]})
+        c = {"grid": spec, "K": K, "eta": eta, "inv": inv, "aset": aset, "chunk": [i, nch]}
+        if partition is not None:
+            c["partition"] = partition
+        out.append(c)
 
 
 def cases(tier):
@@ -105,6 +111,8 @@ def cases(tier):
         for o in offs2:
             spec = mk(pert=[[4, o]]) if any(o) else mk()
             for K in ks:
+                if tier == "quick" and K == "rot" and o not in ([0, 0], [1, -1], [0, 1]):
+                    continue  # quick: the second tensor on 3 of the 9 offsets
                 for eta in etas:
                     _emit(out, spec, K, eta, "python", "all", 128)
     for pat in ([[5, [1, -1]], [6, [0, 1]]], [[5, [-1, -1]], [6, [1, 1]]]):
@@ -145,6 +153,21 @@ def cases(tier):
             for eta in (None, 0.25):
                 _emit(out, spec, K, eta, "python", "flip1", 40)
         _emit(out, spec, "rot", 0.25, "numba", "flip1", 40)
+
+    # ---- Block F: configuration axis partition_arguments (split discretization) on small grids, where the overlapped
+    # sub-grids span (almost) the whole grid: exactness of the split matrices + equality with the unsplit ones
+    small = [c22(), c22(pert=[[4, [1, -1]]]), c32(pert=[[5, [1, -1]], [6, [0, 1]]], affine="shear"), {"kind": "C", "n": [3, 3]},
+             {"kind": "C", "n": [4, 2]}, t22(), t22(pert=[[4, [-1, 1]]]), {"kind": "C", "n": [2, 2, 2]},
+             {"kind": "C", "n": [2, 2, 2], "affine": "shear"}, {"kind": "Tet", "n": [1, 1, 1], "pert": [[0, [1, -1, 1]]]}]
+    for spec in small:
+        for part in ({"num_subproblems": 2}, {"num_subproblems": 3}, {"max_memory_parts": 2}):
+            _emit(out, spec, "full", None, "python", "flip1", 40, partition=part)
+    _emit(out, c22(pert=[[4, [1, -1]]], embed="gen"), "Qplane", None, "python", "flip1", 40, partition={"num_subproblems": 2})
+    _emit(out, {"kind": "C", "n": [3, 3]}, "rot", None, "numba", "flip1", 40, partition={"num_subproblems": 2})
+    if tier == "thorough":
+        for part in ({"num_subproblems": 2}, {"max_memory_parts": 3}):
+            _emit(out, {"kind": "C", "n": [3, 3, 3]}, "full", None, "python", "side", 16, partition=part)
+            _emit(out, {"kind": "C", "n": [6, 6]}, "full", None, "python", "side", 16, partition=part)
 
     # ---- Block E: 2-d grids embedded in a tilted plane of 3-d space (as fracture grids are), 3x3 tensors whose
     # restriction to the plane is anisotropic and not aligned with the plane axes
@@ -220,6 +243,17 @@ def run_case(case) -> Outcome:
     masks = _masks(info, dim, case["aset"])
     i, nch = case["chunk"]
     masks = masks[i::nch]
+    part_extra = None
+    if case.get("partition"):
+        pa = dict(case["partition"])
+        if "max_memory_parts" in pa:
+            import porepy as pp
+
+            peak = int(pp.Mpfa(F.KW)._estimate_peak_memory(g))
+            parts = pa.pop("max_memory_parts")
+            pa["max_memory"] = peak // parts + 1
+            assert int(np.ceil(peak / pa["max_memory"])) == parts
+        part_extra = {"partition_arguments": pa}
     nmax, hmin, xmax = F.geom_scales(g)
     kmax = float(np.max(np.abs(K)))
     tol_f = TOL * kmax * nmax * (1.0 + xmax / hmin)
@@ -234,7 +268,7 @@ def run_case(case) -> Outcome:
     if info.get("periodic_pairs") is not None:
         per_axes = {int(np.argmax(np.abs(g.face_centers[:, r] - g.face_centers[:, l]))) for l, r in info["periodic_pairs"].T}  # noqa: E741
         fields = [f for f in fields if not any(f[2][a] != 0 for a in per_axes)]
-    gcls += ("^emb" if spec.get("embed") else "") + ("/per" if spec.get("periodic") else "") + ("*" if spec.get("scale", 1.0) != 1.0 else "")
+    gcls += ("/split" if case.get("partition") else "") + ("^emb" if spec.get("embed") else "") + ("/per" if spec.get("periodic") else "") + ("*" if spec.get("scale", 1.0) != 1.0 else "")
 
     for m in masks:
         is_dir = G.mask_to_dir(m, nb)
@@ -243,7 +277,7 @@ def run_case(case) -> Outcome:
         try:
             bc = G.make_bc(g, bf, is_dir)
             dg0 = G.digest(g, perm, bc)
-            md, data = F.discretize_flow("mpfa", g, perm, bc, eta, inv)
+            md, data = F.discretize_flow("mpfa", g, perm, bc, eta, inv, extra=part_extra)
             dg1 = G.digest(g, perm, bc)
             flux_m, bflux_m = md["flux"], md["bound_flux"]
             bpc, bpf = md["bound_pressure_cell"], md["bound_pressure_face"]
@@ -253,7 +287,25 @@ def run_case(case) -> Outcome:
             out.ev("exception")
             continue
         bad = None
-        if dg0 != dg1:
+        if part_extra is not None:
+            # differential oracle: separate boundary object, tensor object and parameter dictionary, no partition arguments
+            try:
+                md_one, _ = F.discretize_flow("mpfa", g, G.tensor_from_matrix(K, g.num_cells), G.make_bc(g, bf, is_dir), eta, inv)
+                one, split = G.dense_copy(md_one), G.dense_copy(md)
+                for k in sorted(one):
+                    sc = max(float(np.max(np.abs(one[k]))) if one[k].size else 0.0, 1e-300)
+                    if k not in split or split[k].shape != one[k].shape or not np.all(np.abs(split[k] - one[k]) <= 1e-12 * sc):
+                        d = np.abs(split[k] - one[k]) if k in split and split[k].shape == one[k].shape else None
+                        ij = np.unravel_index(int(np.argmax(d)), d.shape) if d is not None else (0, 0)
+                        bad = ("split discretization (partition_arguments) differs from the unsplit one",
+                               {"matrix": k, "row": int(ij[0]), "col": int(ij[1]), "partition_arguments": part_extra["partition_arguments"],
+                                "unsplit": float(one[k][ij]) if d is not None else None, "split": float(split[k][ij]) if d is not None else None})
+                        break
+            except Exception as e:
+                bad = ("unsplit reference discretization raised", {"error": repr(e)})
+        if bad is not None:
+            pass
+        elif dg0 != dg1:
             bad = ("Mpfa.discretize modified its arguments (grid / tensor / boundary condition)", {})
         elif m % 4 == 0:
             first = G.dense_copy(md)
@@ -289,7 +341,7 @@ def run_case(case) -> Outcome:
                 break
         key = None
         if (0 < nd < nb or spec.get("periodic")) and not symmetric_letter:
-            key = (gname, kl, eta, inv, m)
+            key = (gname, kl, eta, inv, m, str(case.get("partition")))
         if bad is not None:
             out.violate(bad[0], grid=gname, grid_spec=spec, K=K[:kdim, :kdim], K_letter=kl, eta=eta, inverter=inv,
                         dirichlet_mask=m, dirichlet_faces=bf[is_dir], neumann_faces=bf[~is_dir], **bad[1])
